@@ -6,8 +6,8 @@ CONSTANTS
   MaxUid = 1
   MaxCode = 1
   NFlagSets = 1
-  SyncLit = FALSE
-  Kinds = {"SELECT", "FETCH", "STORE", "UIDFETCH"}
+  SyncLit = TRUE
+  Kinds = {"STATUS", "APPEND", "NOOP", "SELECT"}
   Greetings = {"PREAUTH"}
 INIT Init
 NEXT Next
